@@ -110,7 +110,7 @@ PROPS = {
     ),
     "C08": dict(
         module="SeliumModel.Props.C08",
-        suites=["fanout", "pubsub"],
+        suites=["fanout", "pubsub", "reqrep"],
         level="proof",
         rule="same suites as C01 with fault scripts at every (child, operation, position); monitors: only a child that answered Err is dropped, every healthy sink is called exactly once per operation and keeps its items, no panic; (request/reply half: see reqrep suite once claimed)",
         trusted_base=COMMON_TRUST + [
@@ -119,12 +119,12 @@ PROPS = {
             "Sink/Stream waker contract: a child that answers Pending holds the task's waker (recorded by the mocks)",
             "modelled by hand: FanoutMany (sink/fanout_many.rs), pubsub::Topic::poll (topic/pubsub.rs)",
         ],
-        assumptions=["pub/sub half proved; the request/reply half is covered by the reqrep suite and theorems when present in Props/C08.lean"],
+        assumptions=["both halves are proved on hand models tied to the code by trace comparison; a stalled (not failed) peer blocks its router by design (upstream issue #148) and is outside this property"],
         explanation="",
     ),
     "C09": dict(
         module="SeliumModel.Props.C09",
-        suites=["pubsub"],
+        suites=["pubsub", "reqrep"],
         level="proof",
         rule="pubsub suite under the wake-driven executor: a poll happens only if a waker handed out earlier fired (children that answered Pending fire before the next poll unless scripted silent; enqueue/close fire the channel's waker); monitors: bounded child calls per poll, no registration left queued while asleep for good, nothing accepted left unflushed while asleep without a child's waker",
         trusted_base=COMMON_TRUST + [
@@ -133,12 +133,12 @@ PROPS = {
             "Sink/Stream waker contract: a child that answers Pending holds the task's waker (recorded by the mocks)",
             "modelled by hand: FanoutMany (sink/fanout_many.rs), pubsub::Topic::poll (topic/pubsub.rs)",
         ],
-        assumptions=["pub/sub half proved; request/reply half: see Props/C09.lean second part when present"],
+        assumptions=["scripted children consume one answer per call, Pending included; a silent child models a peer that stays stalled"],
         explanation="",
     ),
     "C16": dict(
         module="SeliumModel.Props.C16",
-        suites=["pubsub"],
+        suites=["pubsub", "reqrep"],
         level="proof",
         rule="pubsub suite: the Sender returned by Topic::pair() is closed in random and systematic states (idle, item buffered, sockets queued, publisher idle, subscriber pending); monitor: a closed topic with no pending sink finishes, and at completion every live sink has everything flushed",
         trusted_base=COMMON_TRUST + [
@@ -147,7 +147,46 @@ PROPS = {
             "Sink/Stream waker contract: a child that answers Pending holds the task's waker (recorded by the mocks)",
             "modelled by hand: FanoutMany (sink/fanout_many.rs), pubsub::Topic::poll (topic/pubsub.rs)",
         ],
-        assumptions=["pub/sub half proved; request/reply half: see Props/C16.lean second part when present"],
+        assumptions=["the request/reply router drops frames still buffered at shutdown; the property only asks it to finish"],
+        explanation="",
+    ),
+    "C02": dict(
+        module="SeliumModel.Props.C02",
+        suites=["reqrep"],
+        level="proof",
+        rule="reqrep: the real reqrep::Topic (and through it sink::Router) in a guarded child process (a poll that never returns is observed as a hang) under the wake-driven executor, around scripted requestor / replier sockets; hand-written scenarios for one-sided states, slow requestors with several replies, racing late repliers, unexpected frame kinds, failing replier sinks, forged / missing / malformed / unknown cid, shutdown, plus seeded random histories; every child call, poll result and waker holder compared with the Lean model (HashMap / StreamMap order taken from the observed run); monitors reconstruct the exchange from the mocks' logs; distinct = distinct case lines, trivial = scenarios without any socket",
+        trusted_base=COMMON_TRUST + [
+            "futures::channel::mpsc Receiver, tokio_stream::StreamMap, std HashMap iteration (any order), Sink/Stream waker contract as for C01",
+            "modelled by hand: sink::Router (sink/router.rs), reqrep::Topic::poll (topic/reqrep.rs)",
+            "str::parse::<usize> as modelled by parseUsize (optional +, digits, < 2^64)",
+        ],
+        assumptions=["header maps are association lists with unique keys; equality of frames is equality of those lists after the same set/remove operations"],
+        explanation="",
+    ),
+    "C10": dict(
+        module="SeliumModel.Props.C10",
+        suites=["reqrep"],
+        level="proof",
+        rule="reqrep: the real reqrep::Topic (and through it sink::Router) in a guarded child process (a poll that never returns is observed as a hang) under the wake-driven executor, around scripted requestor / replier sockets; hand-written scenarios for one-sided states, slow requestors with several replies, racing late repliers, unexpected frame kinds, failing replier sinks, forged / missing / malformed / unknown cid, shutdown, plus seeded random histories; every child call, poll result and waker holder compared with the Lean model (HashMap / StreamMap order taken from the observed run); monitors reconstruct the exchange from the mocks' logs; distinct = distinct case lines, trivial = scenarios without any socket",
+        trusted_base=COMMON_TRUST + [
+            "futures::channel::mpsc Receiver, tokio_stream::StreamMap, std HashMap iteration (any order), Sink/Stream waker contract as for C01",
+            "modelled by hand: sink::Router (sink/router.rs), reqrep::Topic::poll (topic/reqrep.rs)",
+            "str::parse::<usize> as modelled by parseUsize (optional +, digits, < 2^64)",
+        ],
+        assumptions=["client side: REPLIER_ALREADY_BOUND is classified as a retryable bind error by keep_alive/helpers.rs (covered by C12's suite)"],
+        explanation="",
+    ),
+    "C11": dict(
+        module="SeliumModel.Props.C11",
+        suites=["reqrep", "pubsub"],
+        level="proof",
+        rule="reqrep: the real reqrep::Topic (and through it sink::Router) in a guarded child process (a poll that never returns is observed as a hang) under the wake-driven executor, around scripted requestor / replier sockets; hand-written scenarios for one-sided states, slow requestors with several replies, racing late repliers, unexpected frame kinds, failing replier sinks, forged / missing / malformed / unknown cid, shutdown, plus seeded random histories; every child call, poll result and waker holder compared with the Lean model (HashMap / StreamMap order taken from the observed run); monitors reconstruct the exchange from the mocks' logs; stream scripts include frames of unexpected kinds (Ok, Error, BatchMessage, Register*) from requestors and repliers and replier sinks that refuse a request (the oversize-after-tag case); distinct = distinct case lines",
+        trusted_base=COMMON_TRUST + [
+            "futures::channel::mpsc Receiver, tokio_stream::StreamMap, std HashMap iteration (any order), Sink/Stream waker contract as for C01",
+            "modelled by hand: sink::Router (sink/router.rs), reqrep::Topic::poll (topic/reqrep.rs)",
+            "str::parse::<usize> as modelled by parseUsize (optional +, digits, < 2^64)",
+        ],
+        assumptions=["router half; the registration half (handle_stream, Ok-before-enqueue, kind mismatch) is the Server/Registry model and the registry e2e suite when present in Props/C11.lean"],
         explanation="",
     ),
 }
